@@ -8,6 +8,24 @@ KNOWN_TAGS = ["forceleave_of_running_member", "leaving_laundered_by_pushpull", "
               "alive_again_after_leave_intent"]
 
 
+# directed histories (3 formed nodes) in which a status must travel by state sync alone: the gossip that carried
+# it reached only one member.  They are executed and validated like the simulated ones.
+MUST3 = [
+    # member 2 dies, node 0 force-leaves it; node 1 never receives the intent
+    [{"a": "crash", "n": 2}, {"a": "mlleave", "n": 0, "x": 2, "w": 0}, {"a": "mlleave", "n": 1, "x": 2, "w": 0},
+     {"a": "forceleave", "n": 0, "x": 2, "prune": 0, "w": 0}, {"a": "sync"}],
+    # member 2 leaves gracefully, only node 0 receives the leave intent
+    [{"a": "leave1", "n": 2}, {"a": "deliver", "n": 0, "ty": 2, "x": 2, "lt": 2, "prune": 0, "w": 0}, {"a": "leave2", "n": 2},
+     {"a": "crash", "n": 2}, {"a": "mlleave", "n": 0, "x": 2, "w": 0}, {"a": "mlleave", "n": 1, "x": 2, "w": 0}, {"a": "sync"}],
+    # node 0 force-leaves a dead member that node 1 still believes alive
+    [{"a": "crash", "n": 2}, {"a": "mlleave", "n": 0, "x": 2, "w": 0}, {"a": "forceleave", "n": 0, "x": 2, "prune": 0, "w": 0},
+     {"a": "sync"}],
+    # a refutation that reaches only one peer: node 1 force-leaves the running node 2, node 2 refutes, only node 0 hears it
+    [{"a": "forceleave", "n": 1, "x": 2, "prune": 0, "w": 0}, {"a": "deliver", "n": 2, "ty": 2, "x": 2, "lt": 2, "prune": 0, "w": 1},
+     {"a": "deliver", "n": 0, "ty": 1, "x": 2, "lt": 3, "prune": 0, "w": 0}, {"a": "sync"}],
+]
+
+
 def build(ctx):
     ov = vlib.overlay_for(ctx, hook_pkgs=[("serf", "serf_state")])
     return vlib.go_build(ctx, "cluster", overlay=ov)
@@ -65,6 +83,8 @@ def run_agreement(ctx, binary=None):
     for nn, formed, ops, num, depth in plans:
         gcfg = cfg(nn, ops, 30, 1, formed, False)
         _, scheds = vlib.simulate_schedules(ctx, "Gen_SerfCluster", gcfg + "INIT GenInit\nNEXT GenNext\n", num, depth, timeout=3000)
+        if nn == 3 and formed:
+            scheds = MUST3 + scheds
         tag = "%d%s" % (nn, "f" if formed else "s")
         tp, summ = execute(ctx, binary, nn, formed, scheds, tag)
         tcfg = "SPECIFICATION TraceSpec\nINVARIANT Done\n" + cfg(nn, 100000, 100000, 100000, formed, False)
